@@ -167,7 +167,9 @@ func c2Entry(c *Ctx) {
 		if !okA || !okB {
 			continue
 		}
-		is := func(x ssa.Instruction) func(ssa.Instruction) bool { return func(i ssa.Instruction) bool { return i == x } }
+		is := func(x ssa.Instruction) func(ssa.Instruction) bool {
+			return func(i ssa.Instruction) bool { return i == x }
+		}
 		fwd := ExistsPath(fn, a.instr, is(b.instr), nil)
 		back := ExistsPath(fn, b.instr, is(a.instr), nil)
 		c.Check(fwd && !back, "R2.1", name, "order/"+order[i]+"≺"+order[i+1], a.instr.Pos(), "%s is emitted before %s on every path that emits both", order[i], order[i+1])
@@ -282,24 +284,10 @@ func c2Reference(c *Ctx) {
 			name := fn.String()
 			n++
 			// the stored value
-			var stored ssa.Value
-			AllInstrs(fn, func(in ssa.Instruction) {
-				switch x := in.(type) {
-				case *ssa.MapUpdate:
-					if strings.HasSuffix(Desc(x.Map), ".cur") {
-						stored = x.Value
-						if len(fn.Params) == 3 && x.Key != ssa.Value(fn.Params[1]) {
-							stored = nil
-						}
-					}
-				case *ssa.Call:
-					if CallBuiltin(x) == "append" {
-						if base, elems := appendParts(x); base != nil && strings.HasSuffix(Desc(base), ".elems") && len(elems) == 1 {
-							stored = elems[0]
-						}
-					}
-				}
-			})
+			stored, key := c2Stored(fn, 0)
+			if stored != nil && len(fn.Params) == 3 && (key == nil || Strip(key) != ssa.Value(fn.Params[1])) {
+				stored = nil
+			}
 			if stored == nil {
 				c.Bad("R2.3", name, "stores", fn.Pos(), "does not record its value under the given key / as the next element")
 				continue
@@ -334,6 +322,53 @@ func c2Reference(c *Ctx) {
 	if n < 40 {
 		c.Bad("R2.3", "reference methods", "count", token.NoPos, "only %d reference-encoder methods found", n)
 	}
+}
+
+// c2Stored: the value (and map key, if any) that fn records into the
+// reference encoder's .cur map / .elems slice — directly or through a helper
+// that records one of its parameters unchanged.
+func c2Stored(fn *ssa.Function, depth int) (stored, key ssa.Value) {
+	AllInstrs(fn, func(in ssa.Instruction) {
+		switch x := in.(type) {
+		case *ssa.MapUpdate:
+			if strings.HasSuffix(Desc(x.Map), ".cur") {
+				stored, key = x.Value, x.Key
+			}
+		case *ssa.Call:
+			if CallBuiltin(x) == "append" {
+				if base, elems := appendParts(x); base != nil && strings.HasSuffix(Desc(base), ".elems") && len(elems) == 1 {
+					stored, key = elems[0], nil
+				}
+				return
+			}
+			if stored != nil || depth > 2 {
+				return
+			}
+			h := helperOf(x)
+			if h == nil || len(h.Params) == 0 || len(Args(x)) == 0 || Desc(Args(x)[0]) != fn.Params[0].Name() {
+				return
+			}
+			hs, hk := c2Stored(h, depth+1)
+			idx := func(v ssa.Value) int {
+				if v == nil {
+					return -1
+				}
+				for i, p := range h.Params {
+					if Strip(v) == ssa.Value(p) {
+						return i
+					}
+				}
+				return -1
+			}
+			if i := idx(hs); i > 0 {
+				stored = Args(x)[i]
+				if j := idx(hk); j > 0 {
+					key = Args(x)[j]
+				}
+			}
+		}
+	})
+	return
 }
 
 func c2UnixNano(c *Ctx) {
@@ -384,7 +419,10 @@ func c2UnixNano(c *Ctx) {
 
 func c2Numbers(c *Ctx) {
 	bp := "go.uber.org/zap/buffer"
-	for _, t := range []struct{ m, std string; base int64 }{{"AppendInt", "strconv.AppendInt", 10}, {"AppendUint", "strconv.AppendUint", 10}} {
+	for _, t := range []struct {
+		m, std string
+		base   int64
+	}{{"AppendInt", "strconv.AppendInt", 10}, {"AppendUint", "strconv.AppendUint", 10}} {
 		fn := c.Method(bp, "Buffer", t.m)
 		if !c.Anchor("R2.6", bp+".Buffer."+t.m, fn != nil) {
 			continue
